@@ -1,6 +1,6 @@
 (* Extraction of the C03 models. ExtrOcamlBasic only. *)
 Require Extraction.
 Require Import ExtrOcamlBasic.
-From Atlas Require Import Base.Bytes Sqlite.ExportModel.
+From Atlas Require Import Base.Bytes Diff.Schema Sqlite.PlanModel Sqlite.ExportModel Hcl.SpecModel.
 Extraction Language OCaml.
-Extraction "model.ml" recover scan_expr fill_checks.
+Extraction "model.ml" recover scan_expr fill_checks hcl_roundtrip.
